@@ -147,13 +147,14 @@ theorem captured_appendOnly {α : Type} (x : RM α) : AppendOnly (RM.captured x)
   have := subexpr_output_private x rc out o' h
   subst this; exact Extends.refl _
 
-theorem cleanup_appendOnly (x : RM Unit) (c : RC → RC) (hx : AppendOnly x) : AppendOnly (RM.withCleanup x c) := by
+theorem bracket_appendOnly {α : Type} (enter : RC → RC) (x : RM α) (leave : RC → RC → RC) (hx : AppendOnly x) :
+    AppendOnly (RM.bracket enter x leave) := by
   constructor
   intro rc out o' h
-  unfold RM.withCleanup at h
-  cases hr : x rc out with
-  | ok a rc1 o1 => simp only [hr, outOf, Option.some.injEq] at h; subst h; exact hx.ext rc out o1 (by simp [hr, outOf])
-  | err e o1 => simp only [hr, outOf, Option.some.injEq] at h; subst h; exact hx.ext rc out o1 (by simp [hr, outOf])
+  unfold RM.bracket at h
+  cases hr : x (enter rc) out with
+  | ok a rc1 o1 => simp only [hr, outOf, Option.some.injEq] at h; subst h; exact hx.ext (enter rc) out o1 (by simp [hr, outOf])
+  | err e o1 => simp only [hr, outOf, Option.some.injEq] at h; subst h; exact hx.ext (enter rc) out o1 (by simp [hr, outOf])
   | panic s => simp [hr, outOf] at h
   | fuel => simp [hr, outOf] at h
 
@@ -171,16 +172,23 @@ theorem navigate_appendOnly (root : Json) (segs : List PathSeg) (blocks : List B
 /-- append-only as a closed predicate -/
 def aoPred : RMPred where
   P := fun x => AppendOnly x
+  Q := fun x => AppendOnly x
+  sub := fun _ h => h
   ret := ret_appendOnly
   bnd := bnd_appendOnly
+  qbnd := bnd_appendOnly
   get := get_appendOnly
-  modify := modify_appendOnly
+  modifyAux := fun _ => modify_appendOnly _
+  frontMod := fun _ => modify_appendOnly _
   throw := throw_appendOnly
   outOfFuel := outOfFuel_appendOnly
   write := write_appendOnly
   mapErr := fun x f _ hx => mapErr_appendOnly x f hx
   captured := fun x _ => captured_appendOnly x
-  cleanup := cleanup_appendOnly
+  withBlock := fun _ x hx => bracket_appendOnly _ x _ hx
+  escOffReset := fun x hx => bracket_appendOnly _ x _ hx
+  escOffSaved := fun x hx => bracket_appendOnly _ x _ hx
+  partialScope := fun _ _ _ _ x hx => bracket_appendOnly _ x _ hx
   navigate := navigate_appendOnly
 
 /-- EVERY render computation only appends to the writer: whatever a render of ANY template has
@@ -397,28 +405,29 @@ theorem captured_faultSim {α : Type} (x : RM α) : FaultSim (RM.captured x) := 
     | panic s => rw [hxr] at h; simp at h
     | fuel => rw [hxr] at h; simp at h
 
-theorem cleanup_faultSim (x : RM Unit) (c : RC → RC) (hx : FaultSim x) : FaultSim (RM.withCleanup x c) := by
-  refine ⟨cleanup_appendOnly x c hx.ao, ?_, ?_⟩
+theorem bracket_faultSim {α : Type} (enter : RC → RC) (x : RM α) (leave : RC → RC → RC) (hx : FaultSim x) :
+    FaultSim (RM.bracket enter x leave) := by
+  refine ⟨bracket_appendOnly enter x leave hx.ao, ?_, ?_⟩
   · intro k rc o a rc' o' hfa hk h
-    unfold RM.withCleanup at h
-    cases hxr : x rc o with
+    unfold RM.bracket at h
+    cases hxr : x (enter rc) o with
     | ok a1 rc1 o1 =>
-      rw [hxr] at h; simp at h; obtain ⟨rfl, rfl⟩ := h
-      rcases hx.ok k rc o () rc1 o1 hfa hk hxr with ⟨hk1, hs⟩ | ⟨hk1, e, oF, hr, hrest⟩
-      · left; refine ⟨hk1, ?_⟩; unfold RM.withCleanup; rw [hs]
-      · right; refine ⟨hk1, e, oF, ?_, hrest⟩; unfold RM.withCleanup; rw [hr]
+      rw [hxr] at h; simp at h; obtain ⟨rfl, rfl, rfl⟩ := h
+      rcases hx.ok k (enter rc) o a1 rc1 o1 hfa hk hxr with ⟨hk1, hs⟩ | ⟨hk1, e, oF, hr, hrest⟩
+      · left; refine ⟨hk1, ?_⟩; unfold RM.bracket; rw [hs]
+      · right; refine ⟨hk1, e, oF, ?_, hrest⟩; unfold RM.bracket; rw [hr]
     | err e o1 => rw [hxr] at h; simp at h
     | panic s => rw [hxr] at h; simp at h
     | fuel => rw [hxr] at h; simp at h
   · intro k rc o e' o' hfa hk h
-    unfold RM.withCleanup at h
-    cases hxr : x rc o with
+    unfold RM.bracket at h
+    cases hxr : x (enter rc) o with
     | ok a1 rc1 o1 => rw [hxr] at h; simp at h
     | err e o1 =>
       rw [hxr] at h; simp at h; obtain ⟨rfl, rfl⟩ := h
-      rcases hx.err k rc o e o1 hfa hk hxr with ⟨hk1, hs⟩ | ⟨hk1, e2, oF, hr, hrest⟩
-      · left; refine ⟨hk1, ?_⟩; unfold RM.withCleanup; rw [hs]
-      · right; refine ⟨hk1, e2, oF, ?_, hrest⟩; unfold RM.withCleanup; rw [hr]
+      rcases hx.err k (enter rc) o e o1 hfa hk hxr with ⟨hk1, hs⟩ | ⟨hk1, e2, oF, hr, hrest⟩
+      · left; refine ⟨hk1, ?_⟩; unfold RM.bracket; rw [hs]
+      · right; refine ⟨hk1, e2, oF, ?_, hrest⟩; unfold RM.bracket; rw [hr]
     | panic s => rw [hxr] at h; simp at h
     | fuel => rw [hxr] at h; simp at h
 
@@ -436,16 +445,23 @@ theorem navigate_faultSim (root : Json) (segs : List PathSeg) (blocks : List Blo
 /-- the fault simulation as a closed predicate -/
 def fsPred : RMPred where
   P := fun x => FaultSim x
+  Q := fun x => FaultSim x
+  sub := fun _ h => h
   ret := ret_faultSim
   bnd := bnd_faultSim
+  qbnd := bnd_faultSim
   get := get_faultSim
-  modify := modify_faultSim
+  modifyAux := fun _ => modify_faultSim _
+  frontMod := fun _ => modify_faultSim _
   throw := throw_faultSim
   outOfFuel := outOfFuel_faultSim
   write := write_faultSim
   mapErr := mapErr_faultSim
   captured := fun x _ => captured_faultSim x
-  cleanup := cleanup_faultSim
+  withBlock := fun _ x hx => bracket_faultSim _ x _ hx
+  escOffReset := fun x hx => bracket_faultSim _ x _ hx
+  escOffSaved := fun x hx => bracket_faultSim _ x _ hx
+  partialScope := fun _ _ _ _ x hx => bracket_faultSim _ x _ hx
   navigate := navigate_faultSim
 
 /-- EVERY render computation, run against a writer failing at call `k`, stays in step with the
